@@ -138,6 +138,29 @@ fn order_by_uses_only_projected_columns<'a>(
 }
 
 impl<'a> Planner<'a> {
+    /// true when the ON condition is a conjunction of `left column = right column` equalities
+    /// and nothing else, i.e. when the key pairs of a hash join say all the condition says
+    fn is_pure_equi_join(&self, join: &super::logical::LogicalJoin<'a>) -> bool {
+        use crate::sql::optimizer::join_analysis::collect_table_names;
+        use crate::sql::optimizer::JoinAnalyzer;
+
+        let analyzer = JoinAnalyzer::new(self.arena);
+        let keys = analyzer.extract_equi_join_keys(join.condition);
+        if keys.is_empty() || analyzer.extract_non_equi_conditions(join.condition).is_some() {
+            return false;
+        }
+        let left_tables = collect_table_names(join.left);
+        let right_tables = collect_table_names(join.right);
+        keys.iter().all(|key| match (key.left_table, key.right_table) {
+            (Some(l), Some(r)) => {
+                (left_tables.contains(l) && right_tables.contains(r))
+                    || (left_tables.contains(r) && right_tables.contains(l))
+            }
+            // unqualified columns: the executor decides by position which input a key belongs to
+            _ => true,
+        })
+    }
+
     pub(crate) fn optimize_to_physical(&self, logical: &LogicalPlan<'a>) -> Result<PhysicalPlan<'a>> {
         let optimizer = Optimizer::with_catalog(self.catalog);
         let optimized_root = optimizer.optimize(logical.root, self.arena)?;
@@ -270,7 +293,9 @@ impl<'a> Planner<'a> {
                         }
                     }
                     _ => {
-                        if self.has_equi_join_keys(join.condition) {
+                        // a hash join carries nothing but its key pairs: any other conjunct of
+                        // the ON condition needs the nested loop, which evaluates all of it
+                        if self.is_pure_equi_join(join) {
                             let equi_keys = self.extract_equi_join_keys_for_join(
                                 join.condition,
                                 join.left,
